@@ -205,6 +205,7 @@ sLUMemInit(fact_t fact, void *work, int_t lwork, int m, int n, int_t annz,
     float   *ucol;
     int_t    *usub, *xusub;
     int_t    nzlmax, nzumax, nzlumax;
+    int_t    top1_ptrs = 0; /* stack top after the pointer arrays (USER) */
     
     iword     = sizeof(int);
     dword     = sizeof(float);
@@ -246,6 +247,11 @@ sLUMemInit(fact_t fact, void *work, int_t lwork, int m, int n, int_t annz,
 	    xlsub  = suser_malloc((n+1) * iword, HEAD, Glu);
 	    xlusup = suser_malloc((n+1) * iword, HEAD, Glu);
 	    xusub  = suser_malloc((n+1) * iword, HEAD, Glu);
+	    if ( !xsup || !supno || !xlsub || !xlusup || !xusub ) {
+		/* work[] cannot even hold the pointer arrays */
+		return (smemory_usage(nzlmax, nzumax, nzlumax, n) + n);
+	    }
+	    top1_ptrs = Glu->stack.top1;
 	}
 
 	lusup = (float *) sexpand( &nzlumax, LUSUP, 0, 0, Glu );
@@ -261,8 +267,9 @@ sLUMemInit(fact_t fact, void *work, int_t lwork, int m, int n, int_t annz,
 		SUPERLU_FREE(lsub); 
 		SUPERLU_FREE(usub);
 	    } else {
-		suser_free((nzlumax+nzumax)*dword+(nzlmax+nzumax)*iword,
-                            HEAD, Glu);
+		/* release whatever part of the four arrays was obtained,
+		   alignment padding included */
+		suser_free(Glu->stack.top1 - top1_ptrs, HEAD, Glu);
 	    }
 	    nzlumax /= 2;
 	    nzumax /= 2;
